@@ -44,7 +44,10 @@ static TriSys gen_tridiag(Rng& rng, int max_n)
     int n    = s.n;
     s.a.assign(n, 0.0);
     s.b.assign(n - 1, 0.0);
-    int fam = rng.range(0, 3);
+    int fam = rng.range(0, 5);
+    const int fam0 = fam;
+    if (fam == 4) fam = rng.coin() ? 0 : 1; // "tiny": the whole system scaled by 2^-k afterwards (exact in binary floating point)
+    if (fam == 5) fam = 0;                  // "weak-corner": cyclic, wrap-around coupling many orders below the other entries
     if (fam == 0 || fam == 3) { // strictly diagonally dominant
         s.family = fam == 0 ? "sdd" : "sdd-zero-sub";
         for (int i = 0; i < n - 1; i++) s.b[i] = (fam == 3 && rng.coin(0.4)) ? 0.0 : pick_value(rng);
@@ -75,6 +78,27 @@ static TriSys gen_tridiag(Rng& rng, int max_n)
             for (int i = 0; i < n; i++) s.a[i] *= sc[i] * sc[i];
             for (int i = 0; i < n - 1; i++) s.b[i] *= sc[i] * sc[i + 1];
             s.c *= sc[0] * sc[n - 1];
+        }
+    }
+    if (fam0 == 4) { // all rows small: symmetric scaling D A D with d_i in [2^-17, 2^-10] (about 1e-5 … 1e-3, the range of C14's quantifier)
+        s.family += "-small-rows";
+        std::vector<double> sc(n);
+        for (int i = 0; i < n; i++) sc[i] = std::ldexp(1.0, -rng.range(10, 17));
+        for (int i = 0; i < n; i++) s.a[i] *= sc[i] * sc[i];
+        for (int i = 0; i < n - 1; i++) s.b[i] *= sc[i] * sc[i + 1];
+        s.c *= sc[0] * sc[n - 1];
+    }
+    if (fam0 == 5) { // cyclic with a wrap-around coupling a few orders below the other entries, rows optionally scaled down to ~1e-5:
+                     // the corner then crosses every absolute threshold of the code base (1e-12 … 2.2e-13) while all pivots stay far above
+        s.family = "weak-corner";
+        s.cyclic = true;
+        s.c = std::ldexp(rng.uniform(0.5, 1.0), -rng.range(3, 14)) * (rng.coin() ? 1 : -1);
+        s.a[0] += std::abs(s.c); s.a[n - 1] += std::abs(s.c); // keeps strict diagonal dominance
+        if (rng.coin(0.7)) {
+            double sc = std::ldexp(1.0, -rng.range(10, 17));
+            for (auto& v : s.a) v *= sc * sc;
+            for (auto& v : s.b) v *= sc * sc;
+            s.c *= sc * sc;
         }
     }
     return s;
